@@ -54,7 +54,7 @@ def candidates(st):
     # hole dealing
     pend = [len(x) for x in st.hole_dealing_statuses]
     mx = max(pend) if pend else 0
-    for c in [None, 1, 2, 0, -1, mx + 1, '??', top, top2, top + top] + ([inplay] if inplay else []):
+    for c in [None, 1, 2, 0, -1, mx + 1, len(deck) + 1, '??', top, top2, top + top] + ([inplay] if inplay else []):
         for i in idx:
             if c is None and i is None:
                 a = ()
@@ -68,7 +68,7 @@ def candidates(st):
             out.append(('deal_hole', a, why))
     # board dealing
     bc = st.board_dealing_count or 0
-    for c in [None, 1, 0, -1, bc + 1, top, card_text(deck[:bc]) if bc and len(deck) >= bc else top2, '??'] + ([inplay] if inplay else []):
+    for c in [None, 1, 0, -1, bc + 1, len(deck) + 1, top, card_text(deck[:bc]) if bc and len(deck) >= bc else top2, '??'] + ([inplay] if inplay else []):
         why = 'non-positive card count' if isinstance(c, int) and c <= 0 else None
         out.append(('deal_board', () if c is None else (c,), why))
     # draws
